@@ -62,6 +62,12 @@ func evalC07Closure(w *fw.W, s, aux string) {
 }
 
 func runHTMLClosure(w *fw.W) {
+	htmlClosure(w, c07Suffixes, func(in string, ctx int) { w.Item(in, fmt.Sprint(ctx)) })
+}
+
+// htmlClosure walks the model automaton breadth-first and hands every (representative + symbol +
+// suffix) input to visit, together with the start context it was reached from.
+func htmlClosure(w *fw.W, suffixes []string, visit func(in string, ctx int)) {
 	l := htmlLists()
 	syms := c07ClosureSyms()
 	type node struct {
@@ -92,9 +98,8 @@ func runHTMLClosure(w *fw.W) {
 			for _, a := range syms {
 				in := nd.rep + a
 				transitions++
-				aux := fmt.Sprint(nd.ctx)
-				for _, suf := range c07Suffixes {
-					w.Item(in+suf, aux)
+				for _, suf := range suffixes {
+					visit(in+suf, nd.ctx)
 				}
 				k, fired := keyOf(in, nd.ctx)
 				if fired {
@@ -115,7 +120,7 @@ func runHTMLClosure(w *fw.W) {
 	w.ExtraMax("max_closure_depth", int64(depth))
 	if closed {
 		w.Extra("closures_reaching_fixpoint", 1)
-		w.Note(fmt.Sprintf("fixpoint after %d levels: %d automaton states, %d transitions x %d distinguishing suffixes validated on the implementation; covers inputs of every length over the %d-symbol alphabet", depth, len(seen), transitions, len(c07Suffixes), len(syms)))
+		w.Note(fmt.Sprintf("fixpoint after %d levels: %d automaton states, %d transitions x %d distinguishing suffixes validated on the implementation; covers inputs of every length over the %d-symbol alphabet", depth, len(seen), transitions, len(suffixes), len(syms)))
 	} else {
 		w.Note(fmt.Sprintf("closure NOT reached within the budget: %d states to depth %d", len(seen), depth))
 		w.MarkIncomplete()
